@@ -124,11 +124,21 @@ class State:
         self.exc_kind = None  # python str or ite-merged? kept as list of (cond, kind)
         self.exc_list = []
         self.yields = []      # list of (guard, value)
+        self.owned = set()
+
+    def wbuf(self, bid):
+        """Writable cell list of a buffer (copy-on-write after a fork)."""
+        if bid not in self.owned:
+            self.heap[bid] = list(self.heap[bid])
+            self.owned.add(bid)
+        return self.heap[bid]
 
     def fork(self):
         s = State()
         s.env = {k: (list(v) if isinstance(v, list) else v) for k, v in self.env.items()}
-        s.heap = {k: list(v) for k, v in self.heap.items()}
+        s.heap = dict(self.heap)
+        s.owned = set()
+        self.owned = set()
         s.pc = list(self.pc)
         s.brk, s.cont, s.ret, s.retval = self.brk, self.cont, self.ret, self.retval
         s.exc = self.exc
@@ -165,6 +175,9 @@ class Interp:
         self.max_loop = 4096
         self.unspec_cast = False
         self.special_hooks = {}
+        self.extra_roots = {}
+        self.assume_casts_in_range = False
+        self.cast_assumptions = []
         self.accum_log = set()
         self.lib_overrides = {}
         self._cur = None
@@ -196,6 +209,8 @@ class Interp:
             return s
         mode = self.prune_mode
         if mode == "off" or (self.facts is None and mode == "facts"):
+            return cond
+        if not self._prunable(cond):
             return cond
         use_pc = mode == "pc"
         key = (cond.get_id(), tuple(p.get_id() for p in st.pc) if use_pc else ())
@@ -234,6 +249,23 @@ class Interp:
             self.stats["branches_pruned"] += 1
         return res
 
+    def _prunable(self, cond, limit=60):
+        """Only small conditions without uninterpreted-function applications are worth a solver call."""
+        todo, seen, n = [cond], set(), 0
+        while todo:
+            x = todo.pop()
+            i = x.get_id()
+            if i in seen:
+                continue
+            seen.add(i)
+            n += 1
+            if n > limit:
+                return False
+            if z3.is_app(x) and x.decl().kind() == z3.Z3_OP_UNINTERPRETED and x.num_args() > 0:
+                return False
+            todo.extend(x.children())
+        return True
+
     # ------------------------------------------------------------ obligations
     def oblige(self, st, kind, claim, info=""):
         claim = simp_bool(claim)
@@ -250,7 +282,10 @@ class Interp:
         if name in self.modules:
             return self.modules[name]
         rel = name.replace(".", "/")
-        path = os.path.join(self.repo, rel + ".py")
+        root = self.extra_roots.get(name.split(".")[0], self.repo)
+        path = os.path.join(root, rel + ".py")
+        if root != self.repo and not os.path.exists(path):
+            path = os.path.join(root, rel, "__init__.py")
         if not os.path.exists(path):
             path = os.path.join(self.repo, rel, "__init__.py")
         if not os.path.exists(path):
@@ -290,7 +325,7 @@ class Interp:
             base = ".".join(parts + ([node.module] if node.module else []))
         for a in node.names:
             nm = a.asname or a.name
-            if base.startswith("hdc"):
+            if base.startswith("hdc") or base.split(".")[0] in self.extra_roots:
                 target[nm] = ("lazy", base, a.name)
             else:
                 target[nm] = LibRef(f"{base}.{a.name}")
@@ -340,6 +375,7 @@ class Interp:
             cells = list(cells)
             assert len(cells) == n, (len(cells), n)
         st.heap[bid] = cells
+        st.owned.add(bid)
         return Arr(bid, 0, shape, c_strides(shape), norm_dtype(dtype))
 
     def arr_cells(self, st, a):
@@ -391,6 +427,10 @@ class Interp:
                 width = hi - lo + 1
                 return (v - lo) % width + lo
             inr = z3.And(v >= lo, v <= hi)
+            if self.assume_casts_in_range:
+                # the property puts out-of-range results outside the claim: recorded as an assumption of the queries
+                self.cast_assumptions.append(z3.Implies(V.to_z3(z_and(*st.pc)), inr))
+                return v
             self.oblige(st, "cast-range", inr, f"value stored into {dtype} ({what})")
             if self.unspec_cast:
                 return z3.If(inr, v, self.A.fresh("unspec_cast", "int"))
@@ -408,7 +448,7 @@ class Interp:
             self.oblige(st, "readonly-write", False, "write to an input buffer declared read-only")
         if cast:
             v = self.cast_store(st, a.dtype, v)
-        st.heap[a.bufid][pos] = v
+        st.wbuf(a.bufid)[pos] = v
 
     # ------------------------------------------------------------ merging
     def merge(self, c, st_t, st_f):
@@ -424,8 +464,11 @@ class Interp:
                 out.heap[bid] = bf
             elif bf is None:
                 out.heap[bid] = bt
+            elif bt is bf:
+                out.heap[bid] = bt
             else:
                 out.heap[bid] = [x if (x is y or same(x, y)) else self.ite_any(c, x, y) for x, y in zip(bt, bf)]
+                out.owned.add(bid)
         # env
         for k in set(st_t.env) | set(st_f.env):
             if k in st_t.env and k in st_f.env:
@@ -631,6 +674,7 @@ class Interp:
             st_t.retval = saved_rv
         m = self.merge(cond, st_t, st_f)
         st.env, st.heap = m.env, m.heap
+        st.owned = m.owned
         st.brk, st.cont, st.ret, st.retval, st.exc = m.brk, m.cont, m.ret, m.retval, m.exc
         st.exc_list, st.yields = m.exc_list, m.yields
 
